@@ -53,7 +53,7 @@ def all_cfgs():
                     # otherwise single specification and MIXED flags: BatchNorm / Dropout / samplers start with the flag
                     # opposite to the wrapper's (frozen BN in training, the converse in eval)
                     sub = {'PIT': ('bn', 'drop'), 'MPS': ('sampler',), 'SuperNet': ('bn', 'drop', 'sampler') if gumbel else ('bn', 'drop')}[method]
-                    out.append(dict(method=method, full_cost=fc, train=train, gumbel=gumbel, spec0='dict' if fc else 'single_a', prefix=(), sub=sub, mixed=not fc))
+                    out.append(dict(method=method, full_cost=fc, train=train, gumbel=gumbel, spec0='dict' if fc else 'single_a', prefix=(), sub=sub, mixed=not fc, qmoved=(method == 'MPS' and not fc)))
     return out
 
 
@@ -82,7 +82,7 @@ def option_cfgs():
     base = dict(full_cost=True, spec0='single_a', mixed=False)
     out = []
     for gumbel in (False, True):
-        m = dict(base, method='MPS', gumbel=gumbel, sub=('sampler',))
+        m = dict(base, method='MPS', gumbel=gumbel, sub=('sampler',), qmoved=gumbel)
         # frozen after some search steps: the stored coefficients differ from what alpha gives now
         out.append(dict(m, train=True, prefix=('forward', 'train_step', 'train_step', 'opts:frozen')))
         out.append(dict(m, train=True, prefix=('opts:hard', 'opts:temp', 'forward')))
@@ -95,7 +95,7 @@ def option_cfgs():
 
 
 def cfg_name(c):
-    return '%s%s/%s/%s/%s/%s/%s' % (c['method'], ':' + c['arch'] if c.get('arch') else '', 'gumbel' if c['gumbel'] else 'softmax', 'train' if c['train'] else 'eval', 'full_cost' if c['full_cost'] else 'nas_cost', c['spec0'],
+    return '%s%s%s/%s/%s/%s/%s/%s' % (c['method'], ':' + c['arch'] if c.get('arch') else '', ':qmoved' if c.get('qmoved') else '', 'gumbel' if c['gumbel'] else 'softmax', 'train' if c['train'] else 'eval', 'full_cost' if c['full_cost'] else 'nas_cost', c['spec0'],
                                   ('mixed:' if c.get('mixed') else 'S=') + '+'.join(c.get('sub', ()))) + ('/after:' + ','.join(c['prefix']) if c.get('prefix') else '')
 
 
@@ -133,6 +133,8 @@ def step_oracle(cfg, path, ob, fp, par, fails):
         ba = {k: (par[k], fp[k]) for k in ch[:4]}
         if 'sampling' in ch:
             ba['sampling'] = (par['sampling_v'], fp['sampling_v'])
+        if 'params' in ch or 'buffers' in ch:
+            ba['changed tensors'] = [k for k in fp['tensors_v'] if fp['tensors_v'][k] != par['tensors_v'].get(k)][:8]
         if 'reqgrad' in ch:
             ba['reqgrad'] = ('un-frozen by the call: %s' % sorted(set(par['reqgrad_v']) - set(fp['reqgrad_v']))[:8], 'frozen by the call: %s' % sorted(set(fp['reqgrad_v']) - set(par['reqgrad_v']))[:8])
         if 'attrs' in ch:
@@ -249,7 +251,8 @@ def compare_path(cfg, path, nodes, mres, mism):
     for i in range(len(sts)):
         for j in range(i + 1, len(sts)):
             a, b = sts[i], sts[j]
-            for nm, ma, mb, key, both in (('params', a[0], b[0], 'params', True), ('rng', a[4], b[4], 'rng', True),
+            for nm, ma, mb, key, both in (('params', a[0], b[0], 'params', not any(sts[k][8][0] == 'TNas' for k in range(i, j))),     # NAS-only steps may have no gradient (hard selection)
+                                          ('rng', a[4], b[4], 'rng', True),
                                           ('requires_grad mode', a[8], b[8], 'reqgrad', False),
                                           ('sampling options', a[7] if cfg['method'] != 'PIT' else 0, b[7] if cfg['method'] != 'PIT' else 0, 'sampling', True),
                                           ('buffers', (a[1], (a[3], a[7][3]) if mps else 0), (b[1], (b[3], b[7][3]) if mps else 0), 'buffers', j == i + 1 and a[1] != b[1]),     # MPS: theta_alpha and temperature are buffers
@@ -274,6 +277,9 @@ def compare_path(cfg, path, nodes, mres, mism):
 # ----------------------------------------------------------------------------- run
 def plan(ctx):
     cfgs = all_cfgs() + zoo_cfgs()
+    for c in cfgs:       # MPS zoo networks: quantizer parameters moved away from their construction values (see move_quantizer_params)
+        if c['method'] == 'MPS' and c.get('arch'):
+            c['qmoved'] = True
     only = os.environ.get('VERIF_C18_METHODS')        # development knob (mutant runs): restrict to some methods
     if only:
         cfgs = [c for c in cfgs if c['method'] in only.split(',')]
@@ -310,7 +316,7 @@ def plan(ctx):
             pre = ctx.rng.choice([(), ('forward',), ('forward', 'train_step')])
             if I.OPTS_FOR[c['method']] and ctx.rng.random() < 0.5:       # non-default sampling options at observer time
                 pre = pre + tuple('opts:' + o for o in ctx.rng.sample(I.OPTS_FOR[c['method']], 2))
-            c2 = dict(c, spec0=ctx.rng.choice(I.SPECS), prefix=pre, sub=sub, mixed=ctx.rng.random() < 0.5)
+            c2 = dict(c, spec0=ctx.rng.choice(I.SPECS), prefix=pre, sub=sub, mixed=ctx.rng.random() < 0.5, qmoved=(c['method'] == 'MPS' and ctx.rng.random() < 0.5))
             tasks.append(('lin', c2, ops))
     return tasks
 
@@ -323,7 +329,7 @@ def run(ctx):
                 'nas cost + single specification + MIXED flags: BatchNorm/Dropout/samplers opposite to the wrapper}) + 3 training configurations with full_cost, dict specification '
                 '(2 of them with mixed flags); every history runs from scratch on one freshly built live object; + seeded length-5 histories (random sub-set S, random mixed start, '
                 'random initial specification, update_softmax_options presets as ops and in the prefix) + 10 MPS / SuperNet configurations whose sampling options are non-default at '
-                'observer time + 13 zoo configurations (PIT causal Conv1d net with ConstantPad1d(value != 0) and pruned rf/dilation masks; PIT and MPS two-input nets that cat their raw inputs; MPS Conv1d+BatchNorm1d net whose BN stays unfolded, in training mode; parameters frozen with train_nas_only / train_net_only before the observers); options: (disable_sampling=True after search steps, hard, temperature 0.5, gumbel switched; 8-op alphabet depth 2). quick: depth 2 on the 20, depth 3 on the 3; thorough: depth 3 on training / 2 on eval configurations, 8-op alphabet depth 4 on 4, '
+                'observer time + 13 zoo configurations (PIT causal Conv1d net with ConstantPad1d(value != 0) and pruned rf/dilation masks; PIT and MPS two-input nets that cat their raw inputs; MPS Conv1d+BatchNorm1d net whose BN stays unfolded, in training mode; parameters frozen with train_nas_only / train_net_only before the observers); half of the MPS configurations have the PACT clipping bounds moved to 1e-5 / 0 / -0.5 / 0.5 .. 10 before the observers; options: (disable_sampling=True after search steps, hard, temperature 0.5, gumbel switched; 8-op alphabet depth 2). quick: depth 2 on the 20, depth 3 on the 3; thorough: depth 3 on training / 2 on eval configurations, 8-op alphabet depth 4 on 4, '
                 '5-op alphabet depth 5 on 3; a case = one history; non-trivial = it contains an observer call; distinct = distinct (configuration, history)')
     tasks.sort(key=lambda t: -(len(ALPH[t[2]]) ** (t[3] - 1) if t[0] == 'dfs' else 1))
     mp = multiprocessing.get_context('fork')
@@ -405,6 +411,8 @@ def replay(r):
         if is_obs(op):
             ch = [k for k in STATE + DERIVED if fp[k] != par[k]]
             print('step %d %-18s -> %-16s changed: %s' % (i + 1, op, str(res['obs'][i])[:16], ch or 'nothing'))
+            if 'params' in ch or 'buffers' in ch:
+                print('        changed tensors of the state_dict: %s' % [k for k in fp['tensors_v'] if fp['tensors_v'][k] != par['tensors_v'].get(k)][:8])
             if 'reqgrad' in ch:
                 print('        parameters un-frozen by the call: %s  frozen by the call: %s' % (sorted(set(par['reqgrad_v']) - set(fp['reqgrad_v']))[:8], sorted(set(fp['reqgrad_v']) - set(par['reqgrad_v']))[:8]))
             if 'attrs' in ch:
